@@ -3,7 +3,7 @@
 Clauses marked S are transcribed from the property statement, C are derived
 from the code (helper preconditions, invariants)."""
 from pyvc.contract import Contract, Mode, Loop, Yield
-from pyvc.sym import Int, Elem, Iter, Const
+from pyvc.sym import Int, Elem, Iter, Const, NONE_ELEM
 
 # ---------------------------------------------------------------------------
 # audiolazy.lazy_misc.blocks
@@ -49,6 +49,8 @@ blocks = Contract(
                           requires=["size >= 1", "hop >= 1", "hop <= size"]),
         "hop>size": Mode(params=dict(seq=Iter(Elem), size=Int, hop=Int, padval=Elem),
                          requires=["size >= 1", "hop > size"]),
+        "padval=None": Mode(params=dict(seq=Iter(Elem), size=Int, hop=Int, padval=(lambda m, n: NONE_ELEM)),
+                            requires=["size >= 1", "hop >= 1"], note="None is a legitimate pad value ('any pad value')"),
     },
     ghost_init=_common_ghost,
     loops={
